@@ -1,0 +1,258 @@
+//go:build verif
+// +build verif
+
+// The garbage-collection pass GCMgr.gc (C03: GC never changes what any key reads; C18: only
+// current records survive in the collected range).
+//
+// What is verified here is the PROTOCOL of the pass, step by step, not an end-to-end theorem
+// about file contents (an inductive proof over a record view of the files was attempted: its
+// quantified invariants are beyond the solvers, see DESIGN.md). The steps:
+//
+//   tree view    no slot of the merkle tree changes its existence, version or value hash (the pass
+//                only ever re-points a slot); holds at every return, including a cancelled pass;
+//   keep rule    a record is written to the destination iff it is the current record of its key
+//                (the tree slot of its key hash points at exactly this position) or it is a
+//                tombstone unknown to the tree in a pass that does not start at file 0;
+//   move         the record appended is the one just scanned, it lands at the write head of the
+//                destination chunk, and the slot of its key is re-pointed at exactly that position;
+//   in place     while the destination is the source file being rewritten, the write head never
+//                passes the read position;
+//   truncate     a rewritten file is cut at its write head only after it has been scanned to its
+//                end (ghost protocol state ghostScanEnd) - otherwise unread live records would be cut
+//                off; a file is removed only if it is not the destination;
+//   idle         when the pass returns no chunk is left in rewriting state and none keeps a writer.
+//
+// Scope: no key of the bucket has collision information (C13 covers colliding keys at the index
+// level); no concurrent writes; file operations do not fail for environmental reasons
+// (reliable_io); data files never exceed the configured DataFileMax and are written in 256-byte
+// blocks (assumed in the contract of GetStreamReader).
+
+package store
+
+import "github.com/douban/gobeansdb/config"
+
+var _ = config.MCConf
+
+// ---------- ghost protocol state ----------
+
+// the sequential scan of the chunk's file has reached its end (set by DataStreamReader.Next when
+// it finds no further record, reset by beginGCWriting when the file starts being rewritten)
+var ghostScanEnd map[*dataChunk]bool
+
+func ghostStreamChunk(r *DataStreamReader) *dataChunk { return nil }
+func ghostCollides(h *hintMgr, kh uint64) bool        { return false }
+
+//@ func ghostStreamChunk
+//@   uninterpreted the chunk whose file a stream reader scans
+//@ func ghostCollides
+//@   uninterpreted the hint manager knows another key with this key hash (collision table or hint buffers)
+
+// the data store's chunks know who they are
+func chunksOK(ds *dataStore) bool {
+	return ds != nil && forall(0, MAX_NUM_CHUNK, func(c int) bool { return ds.chunks[c].chunkid == c })
+}
+
+// no chunk (except dst, the one a running pass writes to) is left in rewriting state or keeps a writer
+func chunksIdleExcept(ds *dataStore, dst int) bool {
+	return forall(0, MAX_NUM_CHUNK, func(c int) bool { return c == dst || (!ds.chunks[c].rewriting && ds.chunks[c].gcWriter == nil) })
+}
+
+func noCollisionAtAll(bkt *Bucket) bool {
+	return forallU64(func(kh uint64) bool { return !ghostCollides(bkt.hints, kh) })
+}
+
+// ---------- assumed interfaces ----------
+
+// the scanner is positioned at the start of the chunk's file; what Next needs (see its contract)
+//@ func (ds *dataStore) GetStreamReader
+//@   props C03 C18
+//@   ints math
+//@   assumed opens the chunk's data file for a sequential scan (newDataStreamReader: os.Open + bufio); data files are smaller than 4 GiB - 512 (offsets are uint32), never exceed DataFileMax (rotation rule) and are written in 256-byte blocks
+//@   requires 0 <= chunk && chunk < MAX_NUM_CHUNK
+//@   modifies ghostHandles(), ghostFail()
+//@   ensures result1 != nil ==> result0 == nil && ioFailed()
+//@   ensures result1 == nil ==> result0 != nil
+//@   ensures result0 != nil ==> fresh(result0) && result0.fd != nil && result0.rbuf != nil && fresh(result0.fd) && fresh(result0.rbuf) && result0.offset == 0 && streamSync(result0)
+//@   ensures result0 != nil ==> len(result0.maxBodyBuf) == 0 && int64(cap(result0.maxBodyBuf)) >= config.MCConf.BodyMax && fresh(result0.maxBodyBuf) && fileSize(result0.fd) <= 1<<32-512
+//@   ensures result0 != nil ==> ghostStreamChunk(result0) == &ds.chunks[chunk]
+//@   ensures result0 != nil ==> int64(fileSize(result0.fd)) <= Conf.DataFileMax && fileSize(result0.fd)%256 == 0
+
+// no collision information for the key: nothing is reported
+//@ func (h *hintMgr) getCollisionGC
+//@   props C03 C18
+//@   ints math
+//@   assumed collision lookup (collision table, in-memory hint buffers): verified pieces CollisionTable.get, HintBuffer.Get
+//@   requires ki != nil
+//@   ensures !ghostCollides(h, ki.KeyHash) ==> !collision && it == nil
+//@   ensures it != nil ==> fresh(it)
+
+//@ func (h *hintMgr) trydump
+//@   props C03 C18
+//@   ints math
+//@   assumed hint buffers are dumped to hint files: no effect on the tree view or the chunk table
+
+//@ func (h *hintMgr) ClearChunk
+//@   props C03 C18
+//@   ints math
+//@   assumed hint buffers and hint files of the chunk are dropped: no effect on the tree view or the chunk table
+
+//@ func (bkt *Bucket) dumpGCHistroy
+//@   props C03 C18
+//@   ints math
+//@   assumed writes NextGCChunk to a file: no effect on the tree view or the chunk table
+
+// waits for a running merge, dumps/merges or drops hint files, removes the tree dumps
+//@ func (mgr *GCMgr) BeforeBucket
+//@   props C03 C18
+//@   ints math
+//@   assumed waits for a concurrent hint merge to stop (busy wait on a flag another goroutine clears), then dumps/merges hints and removes tree dump files: no effect on the tree view or the chunk table
+//@   requires bkt != nil && bkt.hints != nil
+//@   modifies bkt.hints.state, bkt.hints.maxDumpableChunkID, ghostClock(), ghostFail()
+
+//@ func (mgr *GCMgr) AfterBucket
+//@   props C03 C18
+//@   ints bv
+//@   requires bkt != nil && bkt.hints != nil
+//@   modifies bkt.hints.state, bkt.hints.maxDumpableChunkID
+//@   ensures bkt.hints.maxDumpableChunkID == MAX_NUM_CHUNK-1
+
+// the writer must exist; the record lands at the write head, which advances by the record's size
+//@ func (dc *dataChunk) AppendRecordGC
+//@   props C03 C18
+//@   ints math
+//@   assumed writes one record at the GC write head (the encoding is WriteRecord.append, verified under C09; a failed write stops the process)
+//@   requires wrec != nil && wrec.rec != nil && wrec.rec.Payload != nil && dc.gcWriter != nil
+//@   modifies dc.writingHead, dc.size, wrec.pos.ChunkID, wrec.pos.Offset, ghostFail()
+//@   ensures err == nil && offset == old(dc.writingHead) && int64(dc.writingHead) == int64(old(dc.writingHead))+int64(wrec.rec.Payload.RecSize)
+//@   ensures old(dc.size) <= dc.writingHead ==> dc.size == dc.writingHead
+//@   ensures old(dc.size) > dc.writingHead ==> dc.size == old(dc.size)
+
+// TRUNCATE: a rewritten file is cut at its write head - legal only after its scan is complete
+//@ func (dc *dataChunk) endGCWriting
+//@   props C03 C18
+//@   ints math
+//@   assumed closes the GC writer and truncates a rewritten file at the write head (os.Truncate / remove)
+//@   requires ghostScanEnd != nil
+//@   requires dc.rewriting && dc.writingHead < dc.size ==> ghostScanEnd[dc]
+//@   modifies dc.gcWriter, dc.size, dc.rewriting, ghostFail()
+//@   ensures dc.gcWriter == nil && !dc.rewriting
+//@   ensures old(dc.rewriting) && dc.writingHead < old(dc.size) ==> dc.size == dc.writingHead
+//@   ensures !(old(dc.rewriting) && dc.writingHead < old(dc.size)) ==> dc.size == old(dc.size)
+
+// the file is removed: never the one a pass is writing to
+//@ func (dc *dataChunk) Clear
+//@   props C03 C18
+//@   ints math
+//@   assumed removes the chunk's data file
+//@   requires !dc.rewriting && dc.gcWriter == nil
+//@   modifies dc.wbuf, dc.size, dc.rewriting, dc.gcWriter, dc.gcbufsize, dc.writingHead, ghostFail()
+//@   ensures dc.size == 0 && dc.writingHead == 0 && !dc.rewriting && dc.gcWriter == nil
+
+// ---------- verified pieces ----------
+
+//@ func NewKeyInfoFromBytes
+//@   props C03 C18 C15
+//@   ints bv
+//@   requires confTreeOK() && !keyIsPath
+//@   ensures fresh(ki) && ki.KeyHash == keyhash && !ki.KeyIsPath && sameSlice(ki.Key, key) && ki.StringKey == string(key)
+
+//@ func confTreeOK
+//@   modeless its arithmetic (TreeDepth+TreeHeight, table index) is evaluated only after both operands are bounded by 8
+
+//@ func (mgr *GCMgr) UpdateCollision
+//@   props C03 C18
+//@   ints both
+//@   ensures true
+
+// the slot of the key keeps its version and value hash and now points at newPos; no other slot changes
+//@ func (mgr *GCMgr) UpdateHtreePos
+//@   props C03 C18
+//@   ints math
+//@   requires bkt != nil && ki != nil && treeViewOK(bkt.htree)
+//@   modifies elems(ghostTreeHas[bkt.htree]), elems(ghostTreeVer[bkt.htree]), elems(ghostTreeVhash[bkt.htree]), elems(ghostTreeChunk[bkt.htree]), elems(ghostTreeOff[bkt.htree])
+//@   ensures ghostTreeHas[bkt.htree][ki.KeyHash] == old(ghostTreeHas[bkt.htree][ki.KeyHash]) && ghostTreeVer[bkt.htree][ki.KeyHash] == old(ghostTreeVer[bkt.htree][ki.KeyHash]) && ghostTreeVhash[bkt.htree][ki.KeyHash] == old(ghostTreeVhash[bkt.htree][ki.KeyHash])
+//@   ensures ghostTreeHas[bkt.htree][ki.KeyHash] ==> ghostTreeChunk[bkt.htree][ki.KeyHash] == newPos.ChunkID && ghostTreeOff[bkt.htree][ki.KeyHash] == newPos.Offset
+//@   ensures !ghostTreeHas[bkt.htree][ki.KeyHash] ==> ghostTreeChunk[bkt.htree][ki.KeyHash] == old(ghostTreeChunk[bkt.htree][ki.KeyHash]) && ghostTreeOff[bkt.htree][ki.KeyHash] == old(ghostTreeOff[bkt.htree][ki.KeyHash])
+//@   ensures forallU64(func(k uint64) bool { return k != ki.KeyHash ==> ghostTreeHas[bkt.htree][k] == old(ghostTreeHas[bkt.htree][k]) && ghostTreeVer[bkt.htree][k] == old(ghostTreeVer[bkt.htree][k]) && ghostTreeVhash[bkt.htree][k] == old(ghostTreeVhash[bkt.htree][k]) && ghostTreeChunk[bkt.htree][k] == old(ghostTreeChunk[bkt.htree][k]) && ghostTreeOff[bkt.htree][k] == old(ghostTreeOff[bkt.htree][k]) })
+
+// ---------- step assertions of the pass (ghost lemmas: the `requires` is what is checked) ----------
+
+// KEEP RULE (from the statements of C03/C18, no-collision scope): the record scanned at oldPos is
+// kept iff the tree slot of its key hash points at exactly oldPos, or the key is unknown to the
+// tree and the record is a tombstone in a pass that does not start at file 0.
+func lemmaKeepRule(isNewest, found bool, oldPos, treePos Position, begin int, ver int32) bool {
+	return true
+}
+
+//@ func lemmaKeepRule
+//@   props C03 C18
+//@   ints math
+//@   requires isNewest == ((found && oldPos.ChunkID == treePos.ChunkID && oldPos.Offset == treePos.Offset) || (!found && begin > 0 && ver < 0))
+//@   ensures result0
+
+// MOVE: the record appended is the one just scanned (unchanged size), it went to the destination
+// chunk at the previous write head, and newPos names exactly that place.
+func lemmaAppended(wrec *WriteRecord, rec *Record, newPos Position, dst int, dstchunk *dataChunk, whBefore uint32, recsize uint32) bool {
+	return true
+}
+
+//@ func lemmaAppended
+//@   props C03 C18
+//@   ints math
+//@   requires wrec != nil && wrec.rec == rec && newPos.ChunkID == dst && newPos.Offset == whBefore && dstchunk.chunkid == dst
+//@   requires int64(dstchunk.writingHead) == int64(whBefore)+int64(recsize) && rec.Payload.RecSize == recsize
+//@   ensures result0
+
+// MOVE: at the end of the step the slot of the key (if the tree knows it) points at newPos
+func lemmaRepointed(bkt *Bucket, ki *KeyInfo, found bool, newPos Position) bool { return true }
+
+//@ func lemmaRepointed
+//@   props C03 C18
+//@   ints math
+//@   requires found ==> ghostTreeHas[bkt.htree][ki.KeyHash] && ghostTreeChunk[bkt.htree][ki.KeyHash] == newPos.ChunkID && ghostTreeOff[bkt.htree][ki.KeyHash] == newPos.Offset
+//@   ensures result0
+
+// ---------- the pass ----------
+
+func gcBktOK(bkt *Bucket) bool {
+	return bkt != nil && bkt.htree != nil && bkt.hints != nil && bkt.datas != nil && treeViewOK(bkt.htree) && chunksOK(bkt.datas) && ghostScanEnd != nil
+}
+
+func gcReaderOK(bkt *Bucket, r *DataStreamReader, src int) bool {
+	return r != nil && r.fd != nil && r.rbuf != nil && streamSync(r) && int(r.offset)%256 == 0 && len(r.maxBodyBuf) == 0 &&
+		int64(cap(r.maxBodyBuf)) >= config.MCConf.BodyMax && fileSize(r.fd) <= 1<<32-512 && ghostStreamChunk(r) == &bkt.datas.chunks[src]
+}
+
+//@ func (mgr *GCMgr) gc
+//@   props C03 C18
+//@   ints math
+//@   nooverflow
+//@   reliable_io
+//@   timeout 30
+//@   unreachable_ok the error returns (opening a writer or a reader, a failed append) are dead under reliable_io: they are I/O failures
+//@   opaque specValidAt specCRCByte specCRCFold specCRCFoldF
+//@   requires gcBktOK(bkt) && mgr.stat != nil && confTreeOK() && mcConfOK() && Conf != nil && !ioFailed()
+//@   requires specGCRunning(mgr, bkt) ==> mgr.stat[bkt] != nil
+//@   requires 0 < Conf.DataFileMax && Conf.DataFileMax < 1<<32
+//@   requires 0 <= startChunkID && startChunkID <= endChunkID && endChunkID < MAX_NUM_CHUNK
+//@   requires noCollisionAtAll(bkt) && chunksIdleExcept(bkt.datas, -1)
+//@   modifies *
+//@   ensures forallU64(func(kh uint64) bool { return ghostTreeHas[bkt.htree][kh] == old(ghostTreeHas[bkt.htree][kh]) && ghostTreeVer[bkt.htree][kh] == old(ghostTreeVer[bkt.htree][kh]) && ghostTreeVhash[bkt.htree][kh] == old(ghostTreeVhash[bkt.htree][kh]) })
+//@   ensures chunksIdleExcept(bkt.datas, -1)
+//@   ghost after wrapRecord#1: lemmaKeepRule(isNewest, found, oldPos, treePos, gc.Begin, rec.Payload.Ver)
+//@   ghost after set#1: lemmaAppended(wrec, rec, newPos, gc.Dst, dstchunk, newPos.Offset, recsize)
+//@   ghost after set#1: lemmaRepointed(bkt, ki, found, newPos)
+//@   loop 1 invariant gc.Dst == startChunkID && -1 <= i && i < startChunkID
+//@   loop 2 invariant !ioFailed() && gcBktOK(bkt) && gc.Begin == startChunkID && gc.End == endChunkID && startChunkID <= gc.Src && gc.Src <= endChunkID+1
+//@   loop 2 invariant 0 <= gc.Dst && gc.Dst <= gc.Src && gc.Dst <= endChunkID && dstchunk == &bkt.datas.chunks[gc.Dst] && dstchunk.gcWriter != nil && newPos.ChunkID == gc.Dst
+//@   loop 2 invariant gc.Dst == gc.Src ==> dstchunk.rewriting && dstchunk.writingHead == 0
+//@   loop 2 invariant dstchunk.rewriting && gc.Dst != gc.Src && dstchunk.writingHead < dstchunk.size ==> ghostScanEnd[dstchunk]
+//@   loop 2 invariant chunksIdleExcept(bkt.datas, gc.Dst)
+//@   loop 2 invariant forallU64(func(kh uint64) bool { return ghostTreeHas[bkt.htree][kh] == old(ghostTreeHas[bkt.htree][kh]) && ghostTreeVer[bkt.htree][kh] == old(ghostTreeVer[bkt.htree][kh]) && ghostTreeVhash[bkt.htree][kh] == old(ghostTreeVhash[bkt.htree][kh]) })
+//@   loop 3 invariant !ioFailed() && gcBktOK(bkt) && gc.Begin == startChunkID && gc.End == endChunkID && startChunkID <= gc.Src && gc.Src <= endChunkID
+//@   loop 3 invariant 0 <= gc.Dst && gc.Dst <= gc.Src && dstchunk == &bkt.datas.chunks[gc.Dst] && dstchunk.gcWriter != nil && newPos.ChunkID == gc.Dst && oldPos.ChunkID == gc.Src
+//@   loop 3 invariant gcReaderOK(bkt, r, gc.Src) && int64(fileSize(r.fd)) <= Conf.DataFileMax && fileSize(r.fd)%256 == 0 && int(r.offset) <= fileSize(r.fd)
+//@   loop 3 invariant gc.Dst == gc.Src ==> dstchunk.rewriting && dstchunk.writingHead <= r.offset      // IN PLACE: the write head never passes the read position
+//@   loop 3 invariant dstchunk.rewriting && gc.Dst != gc.Src && dstchunk.writingHead < dstchunk.size ==> ghostScanEnd[dstchunk]
+//@   loop 3 invariant chunksIdleExcept(bkt.datas, gc.Dst)
+//@   loop 3 invariant forallU64(func(kh uint64) bool { return ghostTreeHas[bkt.htree][kh] == old(ghostTreeHas[bkt.htree][kh]) && ghostTreeVer[bkt.htree][kh] == old(ghostTreeVer[bkt.htree][kh]) && ghostTreeVhash[bkt.htree][kh] == old(ghostTreeVhash[bkt.htree][kh]) })
